@@ -10,7 +10,8 @@ TARGETS = ['selfies/grammar_rules.py::get_selfies_from_index',
            'selfies/utils/smiles_utils.py::smiles_to_bond',
            'selfies/utils/smiles_utils.py::bond_to_smiles',
            'selfies/encoder.py::_check_bond_constraints',
-           'selfies/utils/smiles_utils.py::atom_to_smiles']
+           'selfies/utils/smiles_utils.py::atom_to_smiles',
+           'selfies/utils/smiles_utils.py::smiles_to_atom']
 EXPLANATION = (
     "Mixed. PROVED: exception-freedom obligations of the functions under contract listed in functions_under_contract "
     "(each operation that can raise is proved safe or covered by the function's raises clause; get_selfies_from_index "
